@@ -80,6 +80,7 @@ func raceOracle(cfg *vh.Config, res *vh.Result, rounds int, caseBase int) (int, 
 		// a real hang is reported by the worker's own watchdog within seconds; this is the backstop for a machine under heavy load
 		timer := time.AfterFunc(time.Duration(240+rounds/2)*time.Second, func() { _ = cmd.Process.Kill() })
 		last, ended, hung := start, false, false
+		var running map[string]any
 		sc := bufio.NewScanner(stdout)
 		sc.Buffer(make([]byte, 1<<20), 1<<24)
 		for sc.Scan() {
@@ -89,6 +90,12 @@ func raceOracle(cfg *vh.Config, res *vh.Result, rounds int, caseBase int) (int, 
 			}
 			if v, ok := m["begin"]; ok {
 				_ = json.Unmarshal(v, &last)
+				running = nil
+			}
+			if v, ok := m["running"]; ok {
+				// what the worker is about to run (goroutines, calls, types): the input of a failure that ends the worker
+				running = nil
+				_ = json.Unmarshal(v, &running)
 			}
 			if v, ok := m["fail"]; ok {
 				var f map[string]any
@@ -134,6 +141,9 @@ func raceOracle(cfg *vh.Config, res *vh.Result, rounds int, caseBase int) (int, 
 		timedOut := !timer.Stop()
 		se := stderr.String()
 		in := map[string]any{"seed": cfg.Seed, "round": last, "how": "harness/cmd/run_conc/worker -seed S -start ROUND -rounds ROUND+1 (built with -race)"}
+		if running != nil {
+			in["in_flight"] = running
+		}
 		if strings.Contains(se, "WARNING: DATA RACE") && !raceSeen {
 			// halt_on_error=1: the worker stopped at the first report, in round [last]; that round
 			// and the rest are run again without halting
@@ -156,10 +166,12 @@ func raceOracle(cfg *vh.Config, res *vh.Result, rounds int, caseBase int) (int, 
 			start = last + 1
 		default:
 			res.Count("race:worker-crash")
+			// the same signature as for a forced-schedule case whose process dies (isolate.go)
 			sig := "C10 concurrent first use: worker crashed"
-			if strings.Contains(se, "concurrent map") {
-				sig = "C10 concurrent first use: fatal error: concurrent map access"
+			if what := fatalLine(se); what != "" {
+				sig = "C10 concurrent first use: process dies with " + what
 			}
+			in["frames_of_the_code_under_test"] = j5Frames(se, 12)
 			res.Fail(vh.Failure{Case: caseBase + last, Stream: "goroutines", Sig: sig,
 				Clause: "concurrent calls complete without runtime crashes", Input: in, Got: fmt.Sprintf("%v: %s", werr, tail(se, 1500))})
 			start = last + 1
